@@ -27,6 +27,7 @@ from uplc_ref import term as T
 CONFIGS_ALL = [(l, pv) for l in ("v1", "v2", "v3") for pv in (8, 9, 10, 11)]
 BIG_BUDGET = D.BIG_BUDGET
 MACHINE_BUDGET = [10**12, 10**10]  # [cpu, mem]
+INT_EDGES = [-(1 << 63), -(1 << 63) - 1, -(1 << 63) + 1, (1 << 63) - 1, 1 << 63, (1 << 63) + 1, (1 << 64) - 1, 1 << 64, -(1 << 64), -(1 << 64) + 1, (1 << 31) - 1, 1 << 31, -(1 << 31), -(1 << 31) - 1, (1 << 32) - 1, 1 << 32, -(1 << 127), (1 << 127) - 1, 1 << 128]
 STEP_CPU, STEP_MEM, START_CPU, START_MEM = D.STEP_CPU, D.STEP_MEM, D.START_CPU, D.START_MEM
 
 
@@ -270,6 +271,21 @@ def _work(task):
         slow = D.SLOW.get(b.name, 8 if b.name.startswith("bls12_381") else 1)
         n = max(20, n // slow)
         terms = [D.gen_builtin_case(r, b) for _ in range(n)]
+    elif kind == "builtin-edges":
+        # every Integer argument position x every machine-word edge, the other arguments as generated:
+        # literal-costed counts / widths / indices are converted to i64 / u64 / usize by hand in the
+        # costing and in the implementation, and the edges (i64::MIN, u64::MAX + 1 ...) are where that breaks
+        b = B.lookup(name)
+        family = "builtin"
+        terms = []
+        for pos, t in enumerate(b.argtypes):
+            if t != "integer":
+                continue
+            for edge in INT_EDGES:
+                for _ in range(max(1, n)):
+                    args = D.gen_args(r, b)
+                    args[pos] = ["con", "integer", str(edge)]
+                    terms.append(D.apply_builtin(b, args))
     elif kind == "exhaustive":
         terms = extra
     elif kind == "corpus":
